@@ -169,7 +169,21 @@ func (e *Enc) EncodeTop() {
 		if bad {
 			continue
 		}
-		e.oblige(fmt.Sprintf("%s:ensures:%s", e.topName(), en.Label), "ensures", tTrue, and(goals...), "")
+		ob := e.oblige(fmt.Sprintf("%s:ensures:%s", e.topName(), en.Label), "ensures", tTrue, and(goals...), "")
+		for _, sp := range c.Splits {
+			v, err := env.eval(sp.Var)
+			if err != nil || v.Sort != SInt {
+				e.problem("split %s: not an integer expression", sp.Var)
+				continue
+			}
+			// exhaustive: v < lo, v == lo .. hi, v > hi
+			ob.Cases = append(ob.Cases, fmt.Sprintf("(< %s %d)", v.S, sp.Lo))
+			for i := sp.Lo; i <= sp.Hi; i++ {
+				ob.Cases = append(ob.Cases, fmt.Sprintf("(= %s %d)", v.S, i))
+			}
+			ob.Cases = append(ob.Cases, fmt.Sprintf("(> %s %d)", v.S, sp.Hi))
+			break // one split per function is supported
+		}
 	}
 	if !c.ModAll {
 		e.frameObligations(c, env, rets)
@@ -392,6 +406,9 @@ func (e *Enc) script(o *Obligation, withModel bool) string {
 	for _, l := range e.lines[:o.Prefix] {
 		sb.WriteString(l + "\n")
 	}
+	if o.caseSel >= 0 && o.caseSel < len(o.Cases) {
+		sb.WriteString("(assert " + o.Cases[o.caseSel] + ")\n")
+	}
 	sb.WriteString(o.query() + "\n(check-sat)\n")
 	if withModel {
 		ins := append(append([]string{}, o.Inputs...), e.extraInputs()...)
@@ -413,6 +430,12 @@ func (e *Enc) incrementalScript() string {
 		for li < o.Prefix {
 			sb.WriteString(e.lines[li] + "\n")
 			li++
+		}
+		if len(o.Cases) > 0 {
+			for k, cs := range o.Cases {
+				fmt.Fprintf(&sb, "(push 1)\n(echo \"@@ %s##%d\")\n(assert %s)\n%s\n(check-sat)\n(pop 1)\n", o.Name, k, cs, o.query())
+			}
+			continue
 		}
 		fmt.Fprintf(&sb, "(push 1)\n(echo \"@@ %s\")\n%s\n(check-sat)\n(pop 1)\n", o.Name, o.query())
 	}
